@@ -15,4 +15,19 @@ TEXT = {
         note="Trusted: num-bigint and the 15-line transcription of the EIP pseudo-code. A call that does not return for an input whose exact value is unrepresentable is recorded, not judged.",
         technique="runtime monitoring: differential against an exact big-integer reference, per-call child processes with watchdog, two build lanes",
     ),
+    "C03": dict(
+        level="Held on every executed case: each of the 25 opcodes runs inside the real interpreter (program PUSH32.. OP STOP, per SpecId) on an exhaustively paired boundary operand set, exhaustive small index/shift domains and random draws; value, consumed inputs (sentinels), gas and fork gate are compared with BigUint/BigInt definitions. Release and debug-assertions lanes.",
+        note="Trusted: num-bigint and the transcribed yellow-paper definitions; revm's ruint is not used on the oracle side.",
+        technique="runtime monitoring: differential execution against a big-integer reference model, two build lanes",
+    ),
+    "C04": dict(
+        level="Held on every observed code/target pair: all byte strings over a 6-symbol alphabet up to length 7 (6 in quick) and generated code with JUMPDEST bytes inside push data and truncated trailing PUSHn; the jump table and executed JUMP/JUMPI (wrapped real instruction functions) are compared with the linear-scan definition for every target 0..len+40 and 256-bit targets that alias valid ones after truncation.",
+        note="Trusted: the 10-line linear scan. Code deployed by CREATE under both analysis kinds is covered by the Evm workloads of C01/C25, not here.",
+        technique="runtime monitoring: exhaustive small-alphabet sweep + generated code, reference-definition oracle at the instruction boundary",
+    ),
+    "C27": dict(
+        level="Held on every observed byte string/address: accepted bytecode must report its input bytes, length and an independently computed keccak-256 before and after jump analysis (padding exactly 33 zero bytes, analysis idempotent); designators round-trip and malformed ones are rejected.",
+        note="Trusted: the harness's own keccak-f[1600] implementation (checked against two published vectors).",
+        technique="runtime monitoring: API round-trip oracle with an independent hash implementation",
+    ),
 }
